@@ -248,6 +248,16 @@ struct Sut {
     removed_once: Vec<bool>,
     bound: usize,
     handed_out: BTreeMap<usize, u32>,
+    mask: BTreeSet<&'static str>, // properties already witnessed in this run: their oracles are skipped
+}
+
+/// report a violation unless every property it concerns has already been witnessed in this run
+macro_rules! bad {
+    ($s:expr, $p:expr, $m:expr) => {
+        if !$p.iter().all(|q| $s.mask.contains(q)) {
+            return Err(v(&$p, $m));
+        }
+    };
 }
 
 fn v(props: &[&'static str], msg: String) -> Viol {
@@ -266,6 +276,7 @@ impl Sut {
             removed_once: vec![],
             bound: 64,
             handed_out: BTreeMap::new(),
+            mask: BTreeSet::new(),
         }
     }
     fn uid_of(&self, id: NodeId) -> Option<usize> {
@@ -542,7 +553,7 @@ impl Sut {
             let id = self.ids[u];
             let alive = self.model.nodes[u].alive;
             if id.is_removed(&self.arena) == alive {
-                return Err(v(&["C06"], format!("is_removed({}) is {} but the node is {}", u, !alive, if alive { "live" } else { "removed" })));
+                bad!(self, ["C06"], format!("is_removed({}) is {} but the node is {}", u, !alive, if alive { "live" } else { "removed" }));
             }
         }
         // C11: get_node_id_at on every position
@@ -550,7 +561,7 @@ impl Sut {
             let got = self.arena.get_node_id_at(NonZeroUsize::new(p).unwrap());
             let live = self.uid_live_at_pos(p).map(|u| self.ids[u]);
             if got != live {
-                return Err(v(&["C11"], format!("get_node_id_at({}) = {:?}, expected {:?}", p, got, live)));
+                bad!(self, ["C11"], format!("get_node_id_at({}) = {:?}, expected {:?}", p, got, live));
             }
         }
         Ok(())
@@ -561,7 +572,7 @@ impl Sut {
         let mut cur = start;
         while let Some(id) = cur {
             if out.len() > self.bound + self.ids.len() {
-                return Err(v(&["C02", "C01"], "link walk does not terminate (cycle)".into()));
+                bad!(self, ["C02", "C01"], "link walk does not terminate (cycle)".into());
             }
             out.push(id);
             cur = match self.arena.get(id) {
@@ -579,10 +590,10 @@ impl Sut {
         let lim = self.bound + n;
         // ---- C11 accessors
         if a.count() != a.iter().count() || a.count() != a.as_slice().len() || a.is_empty() != (a.count() == 0) {
-            return Err(v(&["C11"], "count()/iter().count()/as_slice().len()/is_empty() disagree".into()));
+            bad!(self, ["C11"], "count()/iter().count()/as_slice().len()/is_empty() disagree".into());
         }
         if a.get_node_id_at(NonZeroUsize::new(a.count() + 1).unwrap()).is_some() {
-            return Err(v(&["C11"], "get_node_id_at(out of range) is Some".into()));
+            bad!(self, ["C11"], "get_node_id_at(out of range) is Some".into());
         }
         self.quick_checks()?;
         for u in 0..n {
@@ -597,95 +608,97 @@ impl Sut {
             };
             // C06
             if id.is_removed(a) == alive {
-                return Err(v(&["C06"], format!("is_removed({}) = {} but node is {}", u, !alive, if alive { "live" } else { "removed" })));
+                bad!(self, ["C06"], format!("is_removed({}) = {} but node is {}", u, !alive, if alive { "live" } else { "removed" }));
             }
             if node.is_removed() == alive {
-                return Err(v(&["C06", "C12"], format!("Node::is_removed of {} disagrees with history", u)));
+                bad!(self, ["C06", "C12"], format!("Node::is_removed of {} disagrees with history", u));
             }
             if !alive {
                 // ---- C12: a removed node is out of every tree
                 if node.parent().is_some() || node.previous_sibling().is_some() || node.next_sibling().is_some() || node.first_child().is_some() || node.last_child().is_some() {
-                    return Err(v(&["C12"], format!("removed node {} still reports links: {}", u, node)));
+                    bad!(self, ["C12"], format!("removed node {} still reports links: {}", u, node));
                 }
                 continue;
             }
             // ---- C08 / C11
             if node.get().0 != u as u32 {
-                return Err(v(&["C08"], format!("payload of node {} is {} (expected {})", u, node.get().0, u)));
+                bad!(self, ["C08"], format!("payload of node {} is {} (expected {})", u, node.get().0, u));
             }
             if self.log.borrow().contains(&(u as u32)) && !self.removed_once[u] {
-                return Err(v(&["C08"], format!("payload of live node {} was dropped", u)));
+                bad!(self, ["C08"], format!("payload of live node {} was dropped", u));
             }
             if a[id].get().0 != u as u32 || a.get_node_id(node) != Some(id) || a.get_node_id_at(NonZeroUsize::from(id)) != Some(id) {
-                return Err(v(&["C11"], format!("lookup paths disagree for node {}", u)));
+                bad!(self, ["C11"], format!("lookup paths disagree for node {}", u));
             }
             if usize::from(id) != NonZeroUsize::from(id).get() || format!("{}", id) != format!("{}", usize::from(id)) {
-                return Err(v(&["C11"], format!("usize/NonZeroUsize/Display of node {} disagree", u)));
+                bad!(self, ["C11"], format!("usize/NonZeroUsize/Display of node {} disagree", u));
             }
             if !std::ptr::eq(&a.as_slice()[usize::from(id) - 1], node) {
-                return Err(v(&["C11"], format!("as_slice position of node {} is not its id", u)));
+                bad!(self, ["C11"], format!("as_slice position of node {} is not its id", u));
             }
             // ---- C01: local consistency of the reported links
             let links = [node.parent(), node.previous_sibling(), node.next_sibling(), node.first_child(), node.last_child()];
             for l in links.iter().flatten() {
                 match self.uid_of(*l) {
-                    None => return Err(v(&["C01", "C12"], format!("live node {} names {:?}, which is removed, stale or unknown", u, l))),
+                    None => {
+                        bad!(self, ["C01", "C12"], format!("live node {} names {:?}, which is removed, stale or unknown", u, l));
+                    }
                     Some(_) => {}
                 }
             }
             if let Some(nx) = node.next_sibling() {
                 if a[nx].previous_sibling() != Some(id) || a[nx].parent() != node.parent() {
-                    return Err(v(&["C01"], format!("next sibling of {} does not point back / has another parent", u)));
+                    bad!(self, ["C01"], format!("next sibling of {} does not point back / has another parent", u));
                 }
             }
             if let Some(pv) = node.previous_sibling() {
                 if a[pv].next_sibling() != Some(id) || a[pv].parent() != node.parent() {
-                    return Err(v(&["C01"], format!("previous sibling of {} does not point back / has another parent", u)));
+                    bad!(self, ["C01"], format!("previous sibling of {} does not point back / has another parent", u));
                 }
             }
             if node.first_child().is_some() != node.last_child().is_some() {
-                return Err(v(&["C01"], format!("node {} has a first child but no last child or vice versa", u)));
+                bad!(self, ["C01"], format!("node {} has a first child but no last child or vice versa", u));
             }
             // ---- C02 / C01: parent walk terminates
             let anc = self.walk(Some(id), |x| x.parent())?;
             // ---- compare with the model: parent, children (C03/C04 attribute at the call site)
             let mp = self.model.nodes[u].parent.map(|p| self.ids[p]);
             if node.parent() != mp {
-                return Err(v(&["MODEL"], format!("parent of {} is {:?}, expected {:?}", u, node.parent().map(|x| self.uid_of(x)), self.model.nodes[u].parent)));
+                bad!(self, ["MODEL"], format!("parent of {} is {:?}, expected {:?}", u, node.parent().map(|x| self.uid_of(x)), self.model.nodes[u].parent));
             }
             let kids = self.walk(node.first_child(), |x| x.next_sibling())?;
             let mk: Vec<NodeId> = self.model.nodes[u].children.iter().map(|&c| self.ids[c]).collect();
             if kids != mk {
-                return Err(v(&["MODEL"], format!("children of {} are {:?}, expected {:?}", u, kids.iter().map(|x| self.uid_of(*x)).collect::<Vec<_>>(), self.model.nodes[u].children)));
+                bad!(self, ["MODEL"], format!("children of {} are {:?}, expected {:?}", u, kids.iter().map(|x| self.uid_of(*x)).collect::<Vec<_>>(), self.model.nodes[u].children));
             }
             if node.last_child() != mk.last().cloned() {
-                return Err(v(&["C01"], format!("last child of {} is not the end of its child list", u)));
+                bad!(self, ["C01"], format!("last child of {} is not the end of its child list", u));
             }
             for k in &kids {
                 if a[*k].parent() != Some(id) {
-                    return Err(v(&["C01"], format!("a node on the child list of {} names another parent", u)));
+                    bad!(self, ["C01"], format!("a node on the child list of {} names another parent", u));
                 }
             }
             let sl: Vec<NodeId> = self.model.siblings_list(u).iter().map(|&c| self.ids[c]).collect();
             let me = sl.iter().position(|&x| x == id).unwrap();
             let fwd = self.walk(Some(id), |x| x.next_sibling())?;
             if fwd != sl[me..].to_vec() {
-                return Err(v(&["MODEL"], format!("following siblings of {} differ from the expected order", u)));
+                bad!(self, ["MODEL"], format!("following siblings of {} differ from the expected order", u));
             }
             let bwd = self.walk(Some(id), |x| x.previous_sibling())?;
             let mut exp_b = sl[..=me].to_vec();
             exp_b.reverse();
             if bwd != exp_b {
-                return Err(v(&["MODEL"], format!("preceding siblings of {} differ from the expected order", u)));
+                bad!(self, ["MODEL"], format!("preceding siblings of {} differ from the expected order", u));
             }
             // ---- C09: iterators yield the documented sequences (bounded pulls)
             let take = |it: &mut dyn Iterator<Item = NodeId>| -> Vec<NodeId> { it.take(lim + 1).collect() };
             let c9 = |name: &str, got: Vec<NodeId>, exp: &Vec<NodeId>| -> Result<(), Viol> {
                 if got.len() > lim {
-                    return Err(v(&["C02", "C09"], format!("{}({}) does not terminate", name, u)));
+                    bad!(self, ["C02", "C09"], format!("{}({}) does not terminate", name, u));
                 }
                 if &got != exp {
-                    return Err(v(&["C09"], format!("{}({}) yields {:?}, expected {:?}", name, u, got.iter().map(|x| self.uid_of(*x)).collect::<Vec<_>>(), exp.iter().map(|x| self.uid_of(*x)).collect::<Vec<_>>())));
+                    bad!(self, ["C09"], format!("{}({}) yields {:?}, expected {:?}", name, u, got.iter().map(|x| self.uid_of(*x)).collect::<Vec<_>>(), exp.iter().map(|x| self.uid_of(*x)).collect::<Vec<_>>()));
                 }
                 Ok(())
             };
@@ -705,13 +718,13 @@ impl Sut {
             let exp_edges: Vec<NodeEdge> = tour.iter().map(|&(s, x)| if s { NodeEdge::Start(self.ids[x]) } else { NodeEdge::End(self.ids[x]) }).collect();
             let got_edges: Vec<NodeEdge> = id.traverse(a).take(2 * lim + 2).collect();
             if got_edges != exp_edges {
-                return Err(v(&["C09"], format!("traverse({}) yields {} edges that differ from the depth-first tour of its subtree ({} edges)", u, got_edges.len(), exp_edges.len())));
+                bad!(self, ["C09"], format!("traverse({}) yields {} edges that differ from the depth-first tour of its subtree ({} edges)", u, got_edges.len(), exp_edges.len()));
             }
             let mut rev = exp_edges.clone();
             rev.reverse();
             let got_rev: Vec<NodeEdge> = id.reverse_traverse(a).take(2 * lim + 2).collect();
             if got_rev != rev {
-                return Err(v(&["C09"], format!("reverse_traverse({}) is not the reversal of traverse", u)));
+                bad!(self, ["C09"], format!("reverse_traverse({}) is not the reversal of traverse", u));
             }
             let exp_desc: Vec<NodeId> = tour.iter().filter(|e| e.0).map(|e| self.ids[e.1]).collect();
             c9("descendants", id.descendants(a).take(lim + 1).collect(), &exp_desc)?;
@@ -719,7 +732,7 @@ impl Sut {
             let mut e = NodeEdge::Start(id);
             for k in 0..exp_edges.len() {
                 if e != exp_edges[k] {
-                    return Err(v(&["C09"], format!("next_traverse stepping from Start({}) leaves the tour at step {}", u, k)));
+                    bad!(self, ["C09"], format!("next_traverse stepping from Start({}) leaves the tour at step {}", u, k));
                 }
                 if k + 1 < exp_edges.len() {
                     let nx = match e.next_traverse(a) {
@@ -727,7 +740,7 @@ impl Sut {
                         None => return Err(v(&["C09"], format!("next_traverse stops inside the subtree of {}", u))),
                     };
                     if nx.prev_traverse(a) != Some(e) {
-                        return Err(v(&["C09"], format!("prev_traverse does not undo next_traverse at step {} of the tour of {}", k, u)));
+                        bad!(self, ["C09"], format!("prev_traverse does not undo next_traverse at step {} of the tour of {}", k, u));
                     }
                     e = nx;
                 }
@@ -745,7 +758,7 @@ impl Sut {
                 let mut exp = fwdv.clone();
                 exp.reverse();
                 if back != exp {
-                    return Err(v(&["C10"], format!("{}({}).rev() yields {:?}, expected the forward sequence reversed {:?}", name, u, back.iter().map(|x| self.uid_of(*x)).collect::<Vec<_>>(), exp.iter().map(|x| self.uid_of(*x)).collect::<Vec<_>>())));
+                    bad!(self, ["C10"], format!("{}({}).rev() yields {:?}, expected the forward sequence reversed {:?}", name, u, back.iter().map(|x| self.uid_of(*x)).collect::<Vec<_>>(), exp.iter().map(|x| self.uid_of(*x)).collect::<Vec<_>>()));
                 }
                 // interleavings: pattern bits choose front/back
                 for pat in [0b0101_0101u32, 0b0011_0011, 0b1111_0000, 0b0000_0001, 0b1111_1110] {
@@ -766,7 +779,7 @@ impl Sut {
                             None
                         };
                         if got != want {
-                            return Err(v(&["C10"], format!("{}({}): pull {} ({}) with pattern {:#b} returned {:?}, expected {:?}", name, u, step, if front { "front" } else { "back" }, pat, got.map(|x| self.uid_of(x)), want.map(|x| self.uid_of(x)))));
+                            bad!(self, ["C10"], format!("{}({}): pull {} ({}) with pattern {:#b} returned {:?}, expected {:?}", name, u, step, if front { "front" } else { "back" }, pat, got.map(|x| self.uid_of(x)), want.map(|x| self.uid_of(x))));
                         }
                     }
                 }
@@ -798,8 +811,9 @@ fn classify_model(v0: Viol, op: &Op) -> Viol {
     }
 }
 
-fn run_seq(ops: &[Op], heartbeat: &Arc<Mutex<(String, Instant)>>, full_checks: bool) -> Outcome {
+fn run_seq(ops: &[Op], heartbeat: &Arc<Mutex<(String, Instant)>>, full_checks: bool, mask: &BTreeSet<&'static str>) -> Outcome {
     let mut s = Sut::new();
+    s.mask = mask.clone();
     let mut retired = BTreeSet::new();
     let mut done: Vec<String> = vec![];
     for (k, op) in ops.iter().enumerate() {
@@ -960,7 +974,7 @@ fn main() {
     };
     if args.len() >= 3 && args[1] == "replay" {
         let ops = parse_ops(&args[2]);
-        let o = run_seq(&ops, &heartbeat, true);
+        let o = run_seq(&ops, &heartbeat, true, &found.keys().cloned().collect());
         nseq = 1;
         nops = ops.len();
         record(&ops, o, &mut found);
@@ -989,7 +1003,7 @@ fn main() {
                 for &i in &idx {
                     ops.push(alphabet[i].clone());
                 }
-                let o = run_seq(&ops, &heartbeat, true);
+                let o = run_seq(&ops, &heartbeat, true, &found.keys().cloned().collect());
                 nseq += 1;
                 nops += ops.len();
                 record(&ops, o, &mut found);
@@ -1012,7 +1026,7 @@ fn main() {
         }
         // 2. fixed scenarios (generation counter, clear)
         for ops in scenarios() {
-            let o = run_seq(&ops, &heartbeat, false);
+            let o = run_seq(&ops, &heartbeat, false, &found.keys().cloned().collect());
             nseq += 1;
             nops += ops.len();
             record(&ops, o, &mut found);
@@ -1047,7 +1061,7 @@ fn main() {
                     }
                     ops.push(op);
                 }
-                let o = run_seq(&ops, &heartbeat, true);
+                let o = run_seq(&ops, &heartbeat, true, &found.keys().cloned().collect());
                 nseq += 1;
                 nops += ops.len();
                 record(&ops, o, &mut found);
@@ -1067,7 +1081,7 @@ fn main() {
                 }
                 ops.push(op);
             }
-            let o = run_seq(&ops, &heartbeat, true);
+            let o = run_seq(&ops, &heartbeat, true, &found.keys().cloned().collect());
             nseq += 1;
             nops += ops.len();
             record(&ops, o, &mut found);
